@@ -26,7 +26,7 @@ MANIFEST = {
             "mass_replace, split, replace, strip, Transition.Parse, Guard.Parse) and end to end (real SQLite files through "
             "vppfs.ExtractTransitionTable vs model vs specification vs an independent Python oracle, malformed projects included: "
             "exceptions must agree too).",
-    "note": "The K-C19-6 repair (vppfs.ParseBLOB_Recursive / Get_ValuesFromOutside made quote-aware, kojen 78dbf9a) is not on this property's path: "
+    "note": "The K-C19-6 repair (vppfs.ParseBLOB_Recursive / Get_ValuesFromOutside made quote-aware, kojen d35a215) is not on this property's path: "
             "Transition.Parse / Guard.Parse split their blobs themselves (Model/Vpp.v is unchanged, the C20 theorems are re-checked unchanged). "
             "Trusted: Coq kernel, extraction (ExtrOcamlBasic/NativeString), translator/vpp.py, sqlite3 (SELECT * in rowid order, PRIMARY KEY), "
             "CPython str methods (tied by execution only). The Visual Paradigm writer is an ASSUMPTION (Model/VppWriter.v), calibrated on the "
